@@ -116,6 +116,27 @@ pub fn check_lookup(code: &str) -> (usize, Option<String>) {
 
 pub fn non_codes(rng: &mut Rng) -> Vec<String> {
     let mut v: Vec<String> = vec!["".into(), " ".into(), "12".into(), "0".into(), "日本".into(), "--".into(), "??".into(), "\u{0}".into(), "französisch".into(), "xxxxxxxxxxxx".into(), "qqqqqqqqq".into()];
+    // bounded exhaustive part: every string of one or two lower-case ASCII letters that is not one of the seven codes
+    for a in b'a'..=b'z' {
+        v.push(char::from(a).to_string());
+        for b in b'a'..=b'z' {
+            let c = format!("{}{}", char::from(a), char::from(b));
+            if !LANGS.contains(&c.as_str()) {
+                v.push(c);
+            }
+        }
+    }
+    // near misses of the real codes: padded, truncated, doubled, with a control character (a different case or a
+    // region / script subtag is tag-like and not judged, see the assumptions)
+    for code in LANGS {
+        for f in [" {}", "{} ", "{}\n", "\t{}", "{}\u{0}", "{}{}", "{}.", "'{}'", "{}\u{a0}", "\u{feff}{}"] {
+            v.push(f.replace("{}", code));
+        }
+        v.push(code[..1].to_string());
+        v.push(code[1..].to_string());
+        v.push(code.chars().rev().collect());
+    }
+    v.retain(|c| !LANGS.contains(&c.as_str()));
     for _ in 0..40 {
         let len = 9 + rng.usize(12);
         v.push((0..len).map(|_| char::from(b'a' + rng.below(26) as u8)).collect());
@@ -158,6 +179,41 @@ pub fn run(ctx: &Ctx) -> Outcome {
         let facades: Vec<Box<dyn Api>> = LANGS.iter().map(|c| api::facade(c)).collect();
         let looked: Vec<Option<Box<dyn Api>>> = LANGS.iter().map(|c| api::lookup(c)).collect();
         let mut rng = Rng::derive(ctx.seed, "C13", w as u64);
+        // bounded exhaustive part: every stream of 1..4 (thorough 1..5) tokens over the small alphabet of each language,
+        // through the concrete type, the facade value and the looked-up value: as stream, as text, and word by word on
+        // twin builders (integer part, and with the decimal part starting at every position)
+        let (n_small, cut) = streams::for_each_small_stream(&ls.lex, if ctx.quick() { 4 } else { 5 }, w, nw, &|| ctx.elapsed() > ctx.budget_s * 0.4, &mut |code, toks| {
+            let li = LANGS.iter().position(|c| *c == code).unwrap_or(0);
+            let conc = ls.api(code);
+            let mut others: Vec<(&str, &dyn Api)> = vec![("Language::<variant>", facades[li].as_ref())];
+            if let Some(l) = &looked[li] {
+                others.push(("get_interpreter_for(code)", l.as_ref()));
+            }
+            let s: String = toks.iter().map(|t| t.text.as_str()).collect::<Vec<_>>().join(" ");
+            let words: Vec<&str> = toks.iter().map(|t| t.lower.as_str()).collect();
+            rep.eval(streams::stream_hash(code, toks) ^ 0xe4, true);
+            for (name, o) in &others {
+                let mut fail = diff_stream(conc, *o, toks).map(|m| ("stream", m));
+                if fail.is_none() {
+                    fail = diff_text(conc, *o, &s).map(|m| ("text", m));
+                }
+                if fail.is_none() {
+                    for dec_from in 0..=words.len() {
+                        if let Some(m) = diff_builder(conc, *o, &words, dec_from) {
+                            fail = Some(("builder", m));
+                            break;
+                        }
+                    }
+                }
+                if let Some((kind, msg)) = fail {
+                    rep.violation(&format!("{}:{}:{}", code, kind, name), jobj! {"kind" => "text", "lang" => code, "text" => s.as_str()}, format!("[{} via {}] {} | words: {:?}", code, name, msg, words));
+                }
+            }
+        });
+        rep.add("exhaustive_small_alphabet_streams", n_small);
+        if cut {
+            rep.count("exhaustive_enumeration_cut_by_budget");
+        }
         for i in 0..(n_cases / nw as u64) {
             if i % 128 == 0 && ctx.over_budget() {
                 break;
@@ -259,7 +315,7 @@ pub fn run(ctx: &Ctx) -> Outcome {
     if !ctx.quick() {
         super::legs::fuzz_leg(ctx, &mut rep, 45);
     }
-    let rule = "differential: for each of the 7 languages the concrete interpreter type vs the Language facade value (and vs the value returned by get_interpreter_for) on hostile / linking / annotator-state texts (validate, rewrite and find at 5 thresholds, annotation flags), hinted token streams (batch, lazy iterator incl. pull counts, stream rewrite, basic_annotate on caller tokens) and the eight trait methods called directly on twin builders (status, rendering, marker, flags, formatted text, value); lookup: the 7 ISO 639-1 codes behave as their language on a corpus that separates all 7 languages; None asserted only for strings that cannot be a language tag (empty, digits, symbols, > 8 letters); non-trivial = every case compares at least two executions";
+    let rule = "differential: every stream of 1..4 (thorough 1..5) tokens over a 16/17-word alphabet per language as stream, text and word-by-word builder probe with every decimal start (counter exhaustive_small_alphabet_streams); for each of the 7 languages the concrete interpreter type vs the Language facade value (and vs the value returned by get_interpreter_for) on hostile / linking / annotator-state texts (validate, rewrite and find at 5 thresholds, annotation flags), hinted token streams (batch, lazy iterator incl. pull counts, stream rewrite, basic_annotate on caller tokens) and the eight trait methods called directly on twin builders (status, rendering, marker, flags, formatted text, value); lookup: the 7 ISO 639-1 codes behave as their language on a corpus that separates all 7 languages; None asserted only for strings that cannot be a language tag (empty, digits, symbols, > 8 letters); non-trivial = every case compares at least two executions";
     finish(ctx, rep, rule, &["\"EN\", \"en-US\", \"eng\" and similar tag-like strings are not judged"], vec![])
 }
 
